@@ -149,6 +149,9 @@ def setup():
     """MANIFEST.setup_cmd: build the primary engine binary from files on disk only."""
     try:
         B.build("asan20", ALL)
+        import specials as S
+        for fl in S.C17_FLAVOURS:
+            B.build(fl, UV.by_pack("c17"))
     except B.BuildError as e:
         print("setup: build failed:", e)
         print(e.output[-4000:])
